@@ -465,6 +465,21 @@ def check_case(case, ctx):
     except Exception as e:
         ctx.count('build_failed:' + type(e).__name__)
         return
+    # a second circuit assembled from the very same Gate objects (add_gate takes Gate objects; two netlists built from one
+    # list of gates is ordinary use): editing one circuit must leave the other one alone
+    sib = sib_snap = None
+    if len(net.gates) <= 60 and rng.random() < 0.5:
+        try:
+            with monitor.suspended():
+                sib = Circuit()
+                for g_ in c.gates.values():
+                    sib.add_gate(g_)
+                sib.set_outputs(list(c.outputs))
+                sib_snap = (wf.deep_snapshot(sib), refsem.net_of(sib))
+            ctx.count('sibling_sharing_gate_objects')
+        except Exception as e:
+            ctx.count('sibling_build_failed:' + type(e).__name__)
+            sib = None
     for l in (list(net.gates) if len(net.gates) <= 60 else rng.sample(list(net.gates), 15)):
         new = 'RN_' + l
         if any(len(net.gates[u][1]) != len(set(net.gates[u][1])) and net.gates[u][1].count(l) > 1 for u in users.get(l, [])):
@@ -473,11 +488,28 @@ def check_case(case, ctx):
             ctx.count('rename:block_member')
         try:
             c.rename_gate(l, new)
+            if sib is not None:
+                with monitor.suspended():
+                    now_net = refsem.net_of(sib)
+                if now_net.gates != sib_snap[1].gates:
+                    diff = [l_ for l_ in sib_snap[1].gates if now_net.gates.get(l_) != sib_snap[1].gates[l_]]
+                    ctx.violation('Circuit.rename_gate', 'wrong_result', 'other_circuit_changed',
+                                  'renaming %r in one circuit changed another circuit that holds the same Gate objects (gates %r)' % (l, diff[:4]),
+                                  dict(case, failing=['rename', l]))
+                    sib = None
             c.rename_gate(new, l)
         except Exception as e:
             ctx.unexpected('Circuit.rename_gate', e, dict(case, failing=['rename', l]))
             break
         ctx.case('%s:rename:%s' % (sh, l), bool(users.get(l)) or l in net.outputs, cls='op:rename')
+    if sib is not None:
+        with monitor.suspended():
+            now = (wf.deep_snapshot(sib), refsem.net_of(sib))
+        if now[1].gates != sib_snap[1].gates or now[0] != sib_snap[0]:
+            diff = [l_ for l_ in sib_snap[1].gates if now[1].gates.get(l_) != sib_snap[1].gates[l_]]
+            ctx.violation('Circuit.rename_gate', 'wrong_result', 'other_circuit_changed',
+                          'renaming gates of one circuit changed another circuit that holds the same Gate objects (gates %r)' % (diff[:4],),
+                          case)
     if net.gates:
         l = rng.choice(list(net.gates))
         for a_, b_ in ((l, l), ('__missing__', 'x'), (l, rng.choice(list(net.gates)))):
